@@ -761,10 +761,12 @@ class _Ctx:
                 exc = e.id
             elif isinstance(e, ast.Attribute):
                 exc = e.attr
+            xargs = None
             if isinstance(s.exc, ast.Call):
-                for a in s.exc.args:
-                    self.ev(a, st)
-        self.emit(st, 'raise', s, exc=exc, via=(), direct=True, callee_writes=[])
+                xargs = tuple(self.ev(a, st) for a in s.exc.args)
+        else:
+            xargs = None
+        self.emit(st, 'raise', s, exc=exc, via=(), direct=True, callee_writes=[], args=xargs)
         st.status = 'raise'
         return [st]
 
